@@ -9,6 +9,7 @@ import (
 	"sort"
 	"strconv"
 	"strings"
+	"sync"
 	"time"
 )
 
@@ -48,29 +49,63 @@ func (r *Run) Deadline() time.Time { return r.Start.Add(r.Budget) }
 
 func (r *Run) Thorough() bool { return r.Tier == "thorough" }
 
-// ExploreSpecs explores each spec (sequentially; each uses the whole worker pool).
+// ExploreSpecs explores the specs concurrently over the shared worker pool (a spec with a
+// narrow frontier would otherwise leave workers idle).  Results are merged in spec order.
 func (r *Run) ExploreSpecs(specs []Spec) {
-	for _, s := range specs {
+	type res struct {
+		st    Stats
+		found []Found
+		err   error
+		done  bool
+	}
+	results := make([]res, len(specs))
+	sem := make(chan struct{}, NumWorkers())
+	var wg sync.WaitGroup
+	for i := range specs {
+		specs[i].Prop = r.ID
 		if r.HarnessErr != nil {
-			return
+			break
 		}
-		s.Prop = r.ID
 		if time.Now().After(r.Deadline()) {
+			break
+		}
+		sem <- struct{}{}
+		wg.Add(1)
+		go func(i int) {
+			defer wg.Done()
+			defer func() { <-sem }()
+			st, found, err := Explore(r.Pool, specs[i], r.Deadline(), 3)
+			results[i] = res{st, found, err, true}
+		}(i)
+	}
+	wg.Wait()
+	var group Stats
+	group.Exhaustive = true
+	for i, x := range results {
+		if !x.done {
 			r.Stats.Exhaustive = false
 			if r.Stats.CapHit == "" {
-				r.Stats.CapHit = "deadline reached before space " + s.Name
+				r.Stats.CapHit = "deadline reached before space " + specs[i].Name
 			}
 			continue
 		}
-		st, found, err := Explore(r.Pool, s, r.Deadline(), 3)
-		if err != nil {
-			r.HarnessErr = err
-			return
+		if x.err != nil {
+			if r.HarnessErr == nil {
+				r.HarnessErr = x.err
+			}
+			continue
 		}
-		fmt.Printf("  space %-28s states=%d transitions=%d ops=%d maxdepth=%d exhaustive=%v %.1fs %s\n",
-			s.Name, st.States, st.Transitions, st.OpsRun, st.MaxDepth, st.Exhaustive, st.Wall, st.CapHit)
-		r.Stats.Add(st)
-		r.Found = append(r.Found, found...)
+		if len(specs) <= 12 {
+			fmt.Printf("  space %-34s states=%d transitions=%d ops=%d maxdepth=%d exhaustive=%v %.1fs %s\n",
+				specs[i].Name, x.st.States, x.st.Transitions, x.st.OpsRun, x.st.MaxDepth, x.st.Exhaustive, x.st.Wall, x.st.CapHit)
+		}
+		group.Add(x.st)
+		r.Stats.Add(x.st)
+		r.Found = append(r.Found, x.found...)
+	}
+	if len(specs) > 12 {
+		fmt.Printf("  %d spaces %s … %s: states=%d transitions=%d ops=%d exhaustive=%v %s\n", len(specs), specs[0].Name, specs[len(specs)-1].Name,
+			group.States, group.Transitions, group.OpsRun, group.Exhaustive, group.CapHit)
 	}
 }
 
@@ -232,6 +267,31 @@ func (r *Run) writeEvidence(violations int) {
 func Main(args []string) int {
 	if len(args) >= 1 && args[0] == "__worker" {
 		WorkerMain()
+		return 0
+	}
+	if len(args) >= 2 && args[0] == "__sweep" {
+		return SweepMain(args[1])
+	}
+	if len(args) >= 3 && args[0] == "__text" {
+		// debug: print the canonical state text of a history: __text <spec json> <ops json>
+		var spec Spec
+		var ops []Op
+		if err := json.Unmarshal([]byte(args[1]), &spec); err != nil {
+			fmt.Println(err)
+			return 2
+		}
+		if err := json.Unmarshal([]byte(args[2]), &ops); err != nil {
+			fmt.Println(err)
+			return 2
+		}
+		w, err := MakeSpace(spec).Build(ops)
+		if err != nil {
+			fmt.Println("build:", err)
+			return 1
+		}
+		txt, _ := w.StateText()
+		fmt.Print(txt)
+		fmt.Println("key", HashText(txt))
 		return 0
 	}
 	if len(args) < 1 {
